@@ -467,10 +467,68 @@ theorem C03_cv_field (env : Env) (hp : RulesProgress env.cfg = true) (F D : Nat)
   toplevel_field_gen env hp F D w toks first trest segs cst vol ops x semi d1 b1 b0 bmid bx b' blk rest hstack hk acc hacc hmu hfa
     hspec htoks hfirst htok hy0 hops hopsv hy ha htx hx hxv hsemi hs hF
 
+/-- the same for ANY declarator prefix as well (`PrefixSpec`: pointer chains, pointer chains ending in `&` / `&&`) -/
+theorem C03_field_general (env : Env) (hp : RulesProgress env.cfg = true) (F D : Nat) (w : World)
+    (toks : List Tok) (first : Tok) (trest : List Tok) (segs : List PQSeg) (cst vol : Bool)
+    (pre : List (String × String)) (ops : List Tok) (x semi : Tok) (d1 : DType) (b1 b0 bmid bx b' : Buf)
+    (blk : Block) (rest : List Block) (hstack : w.stack = blk :: rest) (hk : blk.hdr.kind = .cls) (acc : String) (hacc : blk.access = some acc)
+    (hmu : w.muted = false) (hfa : ¬ env.faultAt = some w.delivered)
+    (hspec : TypeSpecR env F D toks segs cst vol) (htoks : toks = first :: trest) (hfirst : specFirst first.type = true)
+    (htok : tokenEofOk env.cfg w.buf = .ok (some first, b1))
+    (hy0 : Yields env.cfg b1 trest b0)
+    (hhead : ∀ p ∈ pre.head?, declStart p.1 = true ∧ p.2 ≠ "auto")
+    (hy : Yields env.cfg b0 ops bmid)
+    (hpre : PrefixSpec env F (D + 1) (.type (.mk segs none false) cst vol) pre d1) (hfn : isFnType d1 = false) (hops : tvs ops = pre)
+    (htx : tokenEofOk env.cfg bmid = .ok (some x, bx)) (hx : x.type = "NAME") (hxv : identVal x.value = true)
+    (hsemi : tokenEofOk env.cfg bx = .ok (some semi, b')) (hs : semi.type = ";")
+    (hF : 2 ≤ F) :
+    ∃ (d : Option String) (bD : Buf) (w7 : World) (ct : CTok) (dox : Option String) (ev : Event),
+      getDoxygen env.cfg env.mcRe w.buf = .ok (d, bD) ∧
+      interp env (mainBody F (core F (D + 1 + 1)) none) w = (w7, .ok (.inl none)) ∧
+      SigEq b' w7.buf ∧ ct.value = first.value ∧ w7.stack = { blk with loc := .tok ct.sidx } :: rest ∧
+      w7.events = w.events ++ [ev] ∧ ev.kind = .item (.classField (plainField x d1 acc dox)) ∧
+      ev.stateId = blk.id ∧ ev.parentId = rest.head?.map (·.id) ∧ (∀ dd, d = some dd → dox = some dd) ∧
+      w7.delivered = w.delivered + 1 ∧ w7.anon = w.anon ∧ w7.muted = false ∧ w7.nextId = w.nextId :=
+  toplevel_field_pre env hp F D w toks first trest segs cst vol pre ops x semi d1 b1 b0 bmid bx b' blk rest hstack hk acc hacc hmu hfa
+    hspec htoks hfirst htok hy0 hhead hy hpre hfn hops htx hx hxv hsemi hs hF
+
+/-- **member functions over ANY return-type specifier** (`TypeSpecR`), any decoded parameter list and any qualifier
+    sequence: exactly ONE `on_class_method` with exactly the written qualifier flags -/
+theorem C03_method_general (env : Env) (hp : RulesProgress env.cfg = true) (F D : Nat) (w : World)
+    (toks : List Tok) (first : Tok) (trest : List Tok) (segs : List PQSeg) (cst vol : Bool) (ops : List Tok) (x op : Tok) (plist : List Param) (semi : Tok) (quals : List Tok) (m' : Function) (d1 : DType) (b1 b0 bmid bx bo bc bq b' : Buf)
+    (blk : Block) (rest : List Block) (hstack : w.stack = blk :: rest) (hk : blk.hdr.kind = .cls)
+    (hmu : w.muted = false) (hfa : ¬ env.faultAt = some w.delivered)
+    (hspec : TypeSpecR env F (D + 1 + 1) toks segs cst vol) (htoks : toks = first :: trest) (hfirst : specFirst first.type = true)
+    (htok : tokenEofOk env.cfg w.buf = .ok (some first, b1))
+    (hy0 : Yields env.cfg b1 trest b0)
+    (hops : opsHeadOk ops = true) (hopsv : ∀ o ∈ ops, o.value ≠ "auto")
+    (hy : Yields env.cfg b0 ops bmid)
+    (ha : applyPtrOps (.type (.mk segs none false) cst vol) (ops.map (·.type)) = some d1)
+    (htx : tokenEofOk env.cfg bmid = .ok (some x, bx)) (hx : x.type = "NAME") (hxv : identVal x.value = true)
+    (hto : tokenEofOk env.cfg bx = .ok (some op, bo)) (hop : op.type = "(")
+    (hparams : ∀ W : World, W.buf = bo → ∃ w7, interp env (parseParametersStep F (core F (D + 1 + 1 + 1)) true) W = (w7, .ok (plist, false, [])) ∧
+      SameButLog W w7 ∧ w7.buf = bc)
+    (hyq : Yields env.cfg bc quals bq)
+    (hsemi : tokenEofOk env.cfg bq = .ok (some semi, b')) (hs : semi.type = ";") (hsv : semi.value = ";") (hFq : quals.length + 1 ≤ F)
+    (hF : ops.length + 2 ≤ F) :
+    ∀ (d : Option String) (bD : Buf), getDoxygen env.cfg env.mcRe w.buf = .ok (d, bD) →
+    applyQuals { plainFunction x d1 d with parameters := plist, isMethod := true, access := blk.access }
+      (quals.map (·.value)) = some m' →
+    ∃ (w7 : World) (ct : CTok) (ev : Event),
+      interp env (mainBody F (core F (D + 1 + 1 + 1 + 1)) none) w = (w7, .ok (.inl none)) ∧
+      w7.buf = b' ∧ ct.value = first.value ∧ w7.stack = { blk with loc := .tok ct.sidx } :: rest ∧
+      w7.events = w.events ++ [ev] ∧ ev.kind = .item (.classMethod m') ∧
+      ev.stateId = blk.id ∧ ev.parentId = rest.head?.map (·.id) ∧
+      w7.delivered = w.delivered + 1 ∧ w7.anon = w.anon ∧ w7.muted = false ∧ w7.nextId = w.nextId :=
+  toplevel_method_gen env hp F D w toks first trest segs cst vol ops x op plist semi quals m' d1 b1 b0 bmid bx bo bc bq b' blk rest hstack hk hmu hfa hspec htoks hfirst htok hy0 hops hopsv hy ha htx hx hxv hto hop hparams hyq hsemi hs hsv hFq hF
+
 /-- such a member is a piece of whole class bodies: `Member.fieldGen` composes with every other member kind in
     `Item.cls`, so `parse_source` covers classes whose data members have cv-qualified / fundamental types -/
 example (env : Env) (hp : RulesProgress env.cfg = true) (hnf : env.faultAt = none) (F D : Nat) (v : SpecDeclToks) :
     Member env F (core F (D + 1 + 1 + 1 + 1)) := Member.fieldGen env hp hnf F D v
+
+example (env : Env) (hp : RulesProgress env.cfg = true) (hnf : env.faultAt = none) (F D : Nat) (v : DeclToks) :
+    Member env F (core F (D + 1 + 1 + 1 + 1)) := Member.fieldPre env hp hnf F D v
 
 end
 
